@@ -266,7 +266,7 @@ def _run_chunk(args):
     while start < len(lines):
         rest = lines[start:]
         # after the first hang in this chunk the patience drops: ordinary cases answer within milliseconds
-        got, status, err, rc = _run_once(exe, mode, rest, (15 if nhang == 0 else 3) if exe == RUNNER else 120)
+        got, status, err, rc = _run_once(exe, mode, rest, (15 if nhang == 0 else (3 if nhang < 5 else 1)) if exe == RUNNER else 120)
         nhang += status == "hang"
         if status == "ok":
             out += got
